@@ -294,6 +294,9 @@ func runC13(o Opts) error {
 			latencyProbe(s, r)
 		}
 	}
+	if o.Replay == "" {
+		deviceZoneProbe(s, r)
+	}
 	time.Local = time.UTC
 	s.Extra["midnight_skipping_days_found"] = skippedMidnights
 	s.Extra["whole_day_skips_found"] = wholeDays
